@@ -255,6 +255,11 @@ static void vh_init (int argc, char **argv, const char *mon, const char *prop)
 	if (vh_only >= 0) vh_verbose = 1 ;
 }
 
+/* re-arm both watchdogs inside a long case (one fault point, one history ...) */
+static void vh_rearm (void)
+{	alarm (vh_case_secs * vh_slow) ;
+	if (vh_case_cpu_secs > 0) { struct itimerval itv ; memset (&itv, 0, sizeof (itv)) ; itv.it_value.tv_sec = vh_case_cpu_secs * vh_slow ; setitimer (ITIMER_VIRTUAL, &itv, NULL) ; }
+}
 /* under valgrind: when the error count grew during the case that just ended, print a marker into valgrind's log so that the
 ** driver can attribute the error blocks above it to that case */
 static void vh_vg_poll (void)
